@@ -37,6 +37,7 @@ CATALOGUE = {
     "comments": "program c\n  ! first\n  integer :: i ! trailing\n  !$omp parallel\n  i = 1 &\n  ! inside\n    + 2\nend program c\n",
     "include_cpp": "program i\n#ifdef X\n  integer :: a\n#endif\n  include 'missing_file.inc'\n  a = 1\nend program i\n",
     "io_format": "program o\n  open(unit=10, file='x')\n  write(10, 100) 1, 2.0\n100 format(i5, 1x, f10.3)\n  read(*, *) a\n  close(10)\nend program o\n",
+    "long_lists": "program l\n  integer :: idx(12), m(3, 3), i\n  real :: v(12)\n  common /blk/ idx, v\n  data idx / 1, 2, 3, 1, 2, 3, 1, 2, 3, 4, 1, 2 /\n  v = (/ 1.0, 2.0, 1.0, 2.0, 1.0, 2.0, 1.0, 2.0, 1.0, 2.0, 1.0, 2.0 /)\n  m(1, 1) = max(i, i, i, i, i, i, i, i, i, i)\n  write(*, 100) i, i, i, i, i, i, i, i, i, i\n100 format(i2, i2, i2, i2, 1x, i2, i2, i2, 1x, i2, i2, i2)\n  do i = 1, 3\n    m(i, i) = i\n  end do\nend program l\n",
     "two_units": "subroutine a\nend subroutine a\nfunction b()\n  b = 1\nend function b\n",
 }
 F2008_EXTRA = {
